@@ -1,0 +1,85 @@
+// Copyright 1999-2020 Alibaba Group Holding Ltd.
+//
+// Licensed under the Apache License, Version 2.0 (the "License");
+// you may not use this file except in compliance with the License.
+// You may obtain a copy of the License at
+//
+//     http://www.apache.org/licenses/LICENSE-2.0
+//
+// Unless required by applicable law or agreed to in writing, software
+// distributed under the License is distributed on an "AS IS" BASIS,
+// WITHOUT WARRANTIES OR CONDITIONS OF ANY KIND, either express or implied.
+// See the License for the specific language governing permissions and
+// limitations under the License.
+
+package circuitbreaker
+
+import (
+	"reflect"
+	"sync"
+)
+
+// rulesInForce maps a breaker that was kept across a load - its rule came again with the same fields - to
+// the rule object of the latest such load. The breaker goes on holding the object it was built with
+// (BoundRule()), which can differ from the latest one in the ID and in fields that do not matter to it;
+// the rule manager, the getters and the block errors speak of the rule as it was last loaded. The table
+// belongs to the rule manager, so it covers breakers of user-registered strategies as well (as long as
+// they are pointers, which is what can serve as a key).
+var (
+	rulesInForceMux sync.Mutex
+	rulesInForce    = make(map[CircuitBreaker]*Rule)
+)
+
+func keyable(cb CircuitBreaker) bool {
+	return cb != nil && reflect.TypeOf(cb).Kind() == reflect.Ptr
+}
+
+// ruleInForceOf returns the rule a breaker stands for, as it was last loaded.
+func ruleInForceOf(cb CircuitBreaker) *Rule {
+	if !keyable(cb) {
+		return cb.BoundRule()
+	}
+	rulesInForceMux.Lock()
+	defer rulesInForceMux.Unlock()
+	if r, ok := rulesInForce[cb]; ok {
+		return r
+	}
+	return cb.BoundRule()
+}
+
+func setRuleInForce(cb CircuitBreaker, rule *Rule) {
+	if !keyable(cb) {
+		return
+	}
+	rulesInForceMux.Lock()
+	defer rulesInForceMux.Unlock()
+	if rule == cb.BoundRule() {
+		delete(rulesInForce, cb)
+	} else {
+		rulesInForce[cb] = rule
+	}
+}
+
+// forgetRulesInForce drops the entries of breakers that are no longer in use.
+func forgetRulesInForce(cbs []CircuitBreaker, except []CircuitBreaker) {
+	rulesInForceMux.Lock()
+	defer rulesInForceMux.Unlock()
+	if len(rulesInForce) == 0 {
+		return
+	}
+	for _, cb := range cbs {
+		if !keyable(cb) {
+			continue
+		}
+		kept := false
+		for _, e := range except {
+			if e == cb {
+				kept = true
+				break
+			}
+		}
+		if !kept {
+			delete(rulesInForce, cb)
+		}
+	}
+}
